@@ -57,6 +57,34 @@ def check_rectifiers(run, cx, cfg):
         run.check(ok, 'rectifier.sibling', fn, cfg, '%s::rectify must be %s(frame): [%s]' % (ty, want, '; '.join(describe_path(p) for p in ps)), where=where(body))
 
 
+    # exactness: the cells above are read over the reals, where a conversion to the Float companion and back is the
+    # identity.  In the machine it is not (f32 has 24 significant bits, f64 53: an i32 / i64 amplitude does not survive), so
+    # a rectifier -- whose statement is exact -- must not route a sample through a float format or an amplitude operation
+    # that does (mul_amp, scale_amp): only to_signed_sample, comparisons, negation and EQUILIBRIUM.
+    import mirutil
+    LOSSY = ('dasp_sample::Sample::mul_amp', 'dasp_sample::Sample::to_float_sample', 'dasp_sample::Sample::to_sample', 'dasp_sample::Sample::from_sample',
+             'dasp_frame::Frame::mul_amp', 'dasp_frame::Frame::scale_amp', 'dasp_frame::Frame::to_float_frame', 'dasp_sample::conv::ToSample::to_sample_',
+             'dasp_sample::conv::FromSample::from_sample_', 'dasp_sample::Duplex')
+    for name in specs:
+        fn = 'dasp_peak::' + name
+        if cx.body(fn) is None:
+            continue
+        bodies = {p: cx.facts.body(p) for p in callee_closure(cx.facts, [fn], crate='dasp_peak') if cx.facts.body(p) is not None}
+        for c in cx.facts.bodies.values():
+            if c['kind'] == 'Closure' and any(c['path'].startswith(p + '::{closure') for p in list(bodies)):
+                bodies[c['path']] = c
+        bad = None
+        n = 0
+        for pth, b in sorted(bodies.items()):
+            for _, t in mirutil.calls(b):
+                n += 1
+                d = (t.get('callee') or {}).get('path') or ''
+                if d.startswith(LOSSY):
+                    bad = '%s calls %s: the amplitude goes through a float format (f32 for formats of 32 bits or less), so the result is rounded, not exact' % (pth, d)
+        run.check(bad is None, 'rectifier.exact', fn, cfg, bad or '', where=where(cx.body(fn)))
+    run.floor('rectifier.exact', 'rectifier functions examined for lossy routes (%s)' % cfg, len([n_ for n_ in specs if cx.body('dasp_peak::' + n_) is not None]), 3)
+
+
 E_F32 = 0x402df854
 
 
